@@ -84,6 +84,10 @@ class TxChecker:
         self.pending = []
 
 
+def rbytes_(rng, n):
+    return bytes(rng.randrange(256) for _ in range(n))
+
+
 def run(ctx):
     from bitcoinlib.transactions import Transaction, TransactionError
     from bitcoinlib.scripts import ScriptError
@@ -158,6 +162,28 @@ def run(ctx):
                           'sequences': [i_.sequence for i_ in t.inputs]})
             continue
         chk.add(raw1, dump_py(t, raw1), False, 'api-built')
+    # a witness stack handed over as ONE byte string (as in a raw transaction; the form in which stored transactions come back from the
+    # wallet database): the input holds exactly the items, whatever their sizes, and serialises them again
+    from bitcoinlib.transactions import Input
+    for trial in range(300 if T else 60):
+        nit = rng.choice([1, 3, 3, 4, 5])           # (two items are read as signature + key)
+        items = [rbytes_(rng, rng.choice([1, 2, 20, 32, 33, 71, 72, 75, 76, 77, 252, 253, 254, 255, 256, 275, 520, 1000, 65535, 65536] if trial % 3 == 0 else [1, 33, 72, 76, 252, 253, 254, 300]))
+                 for _ in range(nit)]
+        blob = txgen.cs(len(items)) + b''.join(txgen.vs(i_) for i_ in items)
+        ctx.evals += 1
+        ctx.count('witness-as-bytes')
+        try:
+            inp = Input(b'\x11' * 32, 0, witnesses=blob, witness_type='segwit', strict=False)
+            got = [bytes(w) for w in inp.witnesses]
+            t_ = Transaction(witness_type='segwit')
+            t_.add_input(b'\x11' * 32, 0, witnesses=blob, witness_type='segwit', strict=False)
+            got2 = [bytes(w) for w in t_.inputs[0].witnesses]
+        except Exception as e:
+            got, got2 = 'raise:' + type(e).__name__, None
+        if got != items or got2 != items:
+            ctx.violation('a witness stack given as one byte string is not held item for item', {'op': 'witness-as-bytes', 'item_sizes': [len(i_) for i_ in items],
+                          'observed_sizes': got if isinstance(got, str) else [len(w) for w in got], 'blob_prefix': blob[:40].hex()})
+            break
     for kind, raw, std in raws:
         for strict in ((True, False) if std else (False,)):
             try:
